@@ -647,6 +647,28 @@ class G:
         self.dump(sc, "log")
         return self.finish(sc, "v%d_mixed" % ver)
 
+    def corpus_iter(self):
+        """fixed regression script: iterator life cycle, locks, traversal (energy is a lower bound here)"""
+        self.begin(0)
+        self.stream, self.valid = "valid", True
+        sc = self.base(1, "recv", pv=5, pages=1)
+        pat = pattern(256)
+        sc["state0"] = sorted({pat[0:1]: b"a", pat[0:2]: b"bb", pat[0:3]: b"ccc", pat[1:2]: b"d"}.items())
+        j = self.call(sc, "state_iterate_prefix", DATA, 1)
+        self.call(sc, "state_iterator_next", ("s", j))
+        self.call(sc, "state_iterator_key_size", ("s", j))
+        self.call(sc, "state_iterator_key_read", ("s", j), DEST, 8, 0)
+        n2 = self.call(sc, "state_iterator_next", ("s", j))
+        self.call(sc, "state_entry_read", ("s", n2), DEST + 16, 8, 0)
+        self.call(sc, "state_create_entry", DATA, 2)          # locked: NONE
+        self.call(sc, "state_delete_prefix", DATA, 1)         # locked: 0
+        self.call(sc, "state_iterator_delete", ("s", j))
+        self.call(sc, "state_iterator_delete", ("s", j))      # already deleted: 0
+        self.call(sc, "state_delete_prefix", DATA, 1)         # 2
+        self.call(sc, "state_lookup_entry", DATA, 2)          # NONE
+        self.dump(sc, "log")
+        return self.finish(sc, "corpus_iterator", 0)
+
     def scripts(self, n):
         out = []
         plan = [(self.v0_state, 14), (lambda: self.logs(0), 6), (lambda: self.logs(1), 6), (lambda: self.params(0), 7),
@@ -662,6 +684,10 @@ class G:
                     break
             sc = f()
             sc["id"] = i
+            out.append(sc)
+        for f in (self.v0_oversized_state, self.corpus_iter):    # fixed regression seeds, every run
+            sc = f()
+            sc["id"] = len(out)
             out.append(sc)
         return out
 
@@ -993,13 +1019,13 @@ def run(ctx):
         ctx.violation({"layer": "harness build against /repo", "error": binp},
                       "harness no longer builds against the implementation", no_input=True)
         return
-    n = 160 if ctx.quick else 1200
+    n = 160 if ctx.quick else 900
     seed = ctx.seed
     rp = None
     if getattr(ctx, "replay", None):
         rp = json.load(open(ctx.replay)).get("replay", {})
         seed = rp.get("seed", seed)
-        n = 160 if rp.get("tier", "quick") == "quick" else 1200
+        n = 160 if rp.get("tier", "quick") == "quick" else 900
     g = G(seed)
     scripts = g.scripts(n)
     if rp is not None and "script_id" in rp:
